@@ -280,7 +280,7 @@ pub fn enumerate(ctx: &Ctx, parts: &str, f: &mut dyn FnMut(&EncCase)) {
     }
     // (h) signal-family grid on real block sizes
     if has('h') {
-        let blocks: &[u16] = if q { &[16, 192, 576, 4096] } else { &[16, 192, 576, 1152, 4096, 65535] };
+        let blocks: &[u16] = if q { &[16, 192, 576, 4096] } else { &[16, 17, 100, 192, 576, 1000, 1152, 4096, 65535] };
         for &bs in blocks {
             let b = bs as usize;
             let mut lens = vec![b - 1, b, b + 1, 2 * b + 1];
@@ -299,7 +299,9 @@ pub fn enumerate(ctx: &Ctx, parts: &str, f: &mut dyn FnMut(&EncCase)) {
                 for &kind in KINDS {
                     for amp in 0..3u32 {
                         for &len in &lens {
-                            for ch in [1u8, 2] {
+                            // multichannel on the small blocks (per-channel vec_map path, 3..8 subframes per frame)
+                            let chans: &[u8] = if bs <= 192 && amp == 2 { &[1, 2, 3, 8] } else { &[1, 2] };
+                            for &ch in chans {
                                 for (oi, opt) in [Opt { block: bs, ..base }, Opt { block: bs, lpc: Some(32), part: 15, ..base }, Opt { block: bs, lpc: None, part: 0, fast: true, ..base }].into_iter().enumerate() {
                                     // (the high-order LPC option set needs blocks of a few hundred samples to be chosen at all)
                                     if q && oi > 0 && bs > 576 {
@@ -307,9 +309,12 @@ pub fn enumerate(ctx: &Ctx, parts: &str, f: &mut dyn FnMut(&EncCase)) {
                                     }
                                     if ctx.mine() {
                                         let m = family(kind, amp, bps, len);
-                                        let pcm: Vec<i32> = if ch == 1 { m } else {
+                                        let pcm: Vec<i32> = if ch == 1 { m } else if ch == 2 {
                                             // right = left + δ (stereo-correlated), clamped
                                             m.iter().enumerate().flat_map(|(i, x)| [*x, (*x as i64 + (i as i64 % 3) - 1).clamp(smin(bps) as i64, smax(bps) as i64) as i32]).collect()
+                                        } else {
+                                            // channel c: the signal delayed by c samples and attenuated by c bits (channel 1 silent)
+                                            (0..len).flat_map(|i| (0..ch as usize).map(move |c| (i, c))).map(|(i, c)| if c == 1 { 0 } else { m[i.saturating_sub(c)] >> c.min(7) }).collect()
                                         };
                                         f(&EncCase { set: "h", w: WriterKind::Sample, opt, sig: Sig { rate: 44100, bps, ch }, pcm: &pcm });
                                     }
